@@ -237,11 +237,12 @@ impl<AnyLoader: Loader> Context<AnyLoader> {
         };
         // Note: Should a "full stack" of bases be used here?
         // Or is this fine?
-        let rel_url = relative(&from, url);
+        let url = normalize(url);
+        let rel_url = normalize(&relative(&from, &url));
         let found = match self.do_find_file(&rel_url, names)? {
             // Not found relative to the loading file; try the url
             // unchanged (in the base directory and the load paths).
-            None if rel_url != url => self.do_find_file(url, names)?,
+            None if rel_url != url => self.do_find_file(&url, names)?,
             found => found,
         };
         if let Some((path, mut file)) = found {
@@ -320,6 +321,26 @@ fn relative<'a>(base: &SourceKind, url: &'a str) -> Cow<'a, str> {
                 .map(|base| format!("{base}{url}").into())
         })
         .unwrap_or_else(|| url.into())
+}
+
+/// Resolve `.` and `..` segments and repeated slashes in a url.
+///
+/// This is done lexically (as for any url), so that different
+/// spellings of a url name the same file when it is locked for
+/// loading or looked up among the loaded modules.
+fn normalize(url: &str) -> String {
+    let mut parts = Vec::new();
+    for part in url.split('/') {
+        match part {
+            "" | "." => (),
+            ".." if parts.last().is_some_and(|p| *p != "..") => {
+                parts.pop();
+            }
+            part => parts.push(part),
+        }
+    }
+    let root = if url.starts_with('/') { "/" } else { "" };
+    format!("{root}{}", parts.join("/"))
 }
 
 impl<T: fmt::Debug> fmt::Debug for Context<T> {
